@@ -1020,15 +1020,8 @@ impl<Writer: Write> Muxer<Writer> {
                 has_idr
             }
             VideoCodec::H265 => {
-                // Check for IDR NAL (type 19-21)
-                let has_idr = AnnexBNalIter::new(data).any(|nal| {
-                    if nal.is_empty() {
-                        return false;
-                    }
-                    let nal_type = (nal[0] >> 1) & 0x3f;
-                    (19..=21).contains(&nal_type)
-                });
-                has_idr
+                // Any IRAP picture (BLA 16-18, IDR 19-20, CRA 21) is a keyframe
+                crate::codec::h265::is_hevc_keyframe(data)
             }
             VideoCodec::Av1 => {
                 // For AV1, check if it's a key frame (first frame or has key frame flag)
